@@ -1,9 +1,10 @@
 ---------------------------- MODULE ShutdownSched ----------------------------
 (* R2 for X02: server configurations and stimulus schedules.
    cfg: mode (standalone: B recording backends | forwarder: one scripted upstream, counted as backend 1, whose client gives up after 10 s) x
-        workers (aggregators) x queue (per-worker queue size) x backends x cloud (an instance-lookup stage in front, lookups answered after
+        expiry (seconds after which an idle series is dropped; 0 = never) x workers (aggregators) x queue (per-worker queue size) x backends x cloud (an instance-lookup stage in front, lookups answered after
         10 ms) x events (internal start / stop events enabled)
      dg k      a datagram with k counter lines             ev        a datagram with an event line
+     bad       a datagram with a line the parser rejects and one it accepts
      hold b / release b    backend b stops / resumes answering flushes and events (it honours the contexts it is given)
      adv d     d x 100 ms of virtual time pass (the flush interval is 1 s)
      stop      the server's context is cancelled; what follows in the schedule happens during / after shutdown
@@ -11,15 +12,17 @@
 EXTENDS Naturals, Sequences, TLC, Json
 CONSTANTS MaxLen
 VARIABLES cfg, sched
-Cfgs == {[mode |-> "standalone", workers |-> w, queue |-> q, backends |-> b, cloud |-> c, events |-> e] : w \in {1, 2}, q \in {1, 2}, b \in {1, 2}, c \in BOOLEAN, e \in BOOLEAN}
-        \cup {[mode |-> "forwarder", workers |-> 1, queue |-> 1, backends |-> 1, cloud |-> c, events |-> e] : c \in BOOLEAN, e \in BOOLEAN}
+Cfgs == {[mode |-> "standalone", workers |-> w, queue |-> q, backends |-> b, cloud |-> c, events |-> e, expiry |-> x] :
+            w \in {1, 2}, q \in {1, 2}, b \in {1, 2}, c \in BOOLEAN, e \in BOOLEAN, x \in {0, 300}}
+        \cup {[mode |-> "forwarder", workers |-> 1, queue |-> 1, backends |-> 1, cloud |-> c, events |-> e, expiry |-> 300] : c \in BOOLEAN, e \in BOOLEAN}
 O(op, k) == [op |-> op, k |-> k]
-Ops(c) == {O("dg", 1), O("dg", 3), O("ev", 0), O("adv", 1), O("adv", 12), O("stop", 0)} \cup {O("hold", b) : b \in 1..c.backends} \cup {O("release", b) : b \in 1..c.backends}
+Ops(c) == {O("dg", 1), O("dg", 3), O("ev", 0), O("bad", 0), O("adv", 1), O("adv", 12), O("stop", 0)} \cup {O("hold", b) : b \in 1..c.backends} \cup {O("release", b) : b \in 1..c.backends}
 Init == cfg \in Cfgs /\ sched = <<>>
 Next == Len(sched) < MaxLen /\ \E o \in Ops(cfg) : sched' = Append(sched, o) /\ UNCHANGED cfg
 Spec == Init /\ [][Next]_<<cfg, sched>>
-C(w, q, b, c, e) == [mode |-> "standalone", workers |-> w, queue |-> q, backends |-> b, cloud |-> c, events |-> e]
-F(c, e) == [mode |-> "forwarder", workers |-> 1, queue |-> 1, backends |-> 1, cloud |-> c, events |-> e]
+C(w, q, b, c, e) == [mode |-> "standalone", workers |-> w, queue |-> q, backends |-> b, cloud |-> c, events |-> e, expiry |-> 300]
+C0(w, q, b, c, e) == [mode |-> "standalone", workers |-> w, queue |-> q, backends |-> b, cloud |-> c, events |-> e, expiry |-> 0]
+F(c, e) == [mode |-> "forwarder", workers |-> 1, queue |-> 1, backends |-> 1, cloud |-> c, events |-> e, expiry |-> 300]
 Core == {
   [cfg |-> C(2, 2, 2, FALSE, TRUE), sched |-> <<O("dg", 3), O("adv", 12), O("ev", 0), O("adv", 3)>>],
   \* stopped while the only worker waits on a stuck backend, its queue is full and both parsers wait to dispatch
@@ -29,6 +32,10 @@ Core == {
   [cfg |-> C(1, 2, 2, FALSE, TRUE), sched |-> <<O("stop", 0), O("dg", 1)>>],                      \* stopped before anything happened
   [cfg |-> C(2, 2, 1, TRUE, TRUE), sched |-> <<O("dg", 1), O("adv", 12), O("adv", 12), O("dg", 3)>>],
   [cfg |-> F(FALSE, TRUE), sched |-> <<O("dg", 3), O("adv", 12), O("ev", 0), O("adv", 3)>>],
+  \* traffic spread over several flush intervals, so that the server's own running totals have to move (AccountingProp)
+  [cfg |-> C0(1, 2, 1, FALSE, FALSE), sched |-> <<O("dg", 3), O("adv", 12), O("adv", 12), O("dg", 1), O("adv", 12), O("adv", 12), O("dg", 1), O("bad", 0), O("ev", 0), O("adv", 12)>>],
+  [cfg |-> C(2, 2, 2, TRUE, TRUE), sched |-> <<O("dg", 3), O("adv", 12), O("adv", 12), O("dg", 1), O("adv", 12), O("adv", 12), O("ev", 0), O("bad", 0), O("adv", 12)>>],
+  [cfg |-> F(FALSE, TRUE), sched |-> <<O("dg", 3), O("adv", 12), O("adv", 12), O("dg", 1), O("adv", 12), O("adv", 12), O("ev", 0), O("bad", 0), O("adv", 12)>>],
   \* a forwarder stopped while its upstream does not answer: a flush, a client event and the stop event are all in flight
   [cfg |-> F(FALSE, TRUE), sched |-> <<O("hold", 1), O("dg", 3), O("adv", 12), O("dg", 1), O("ev", 0), O("stop", 0), O("dg", 1)>>],
   [cfg |-> F(TRUE, TRUE), sched |-> <<O("dg", 3), O("ev", 0), O("adv", 12), O("hold", 1), O("adv", 12), O("stop", 0), O("release", 1)>>]
